@@ -93,6 +93,20 @@ struct VTraits
 	bool IsEqual(const K& a, const K& b) const { return a.id() == b.id(); }
 };
 
+// map values beyond uint32_t: a 24-byte trivially copyable struct and a non-trivial one owning a (non-SSO) std::string
+struct BigVal
+{
+	uint32_t v; unsigned char pad[20];
+	BigVal(uint32_t x = 0) : v(x) { std::memset(pad, 0x5A, sizeof(pad)); }
+	operator uint32_t() const { return v; }
+};
+struct StrVal
+{
+	std::string s;
+	StrVal(uint32_t x = 0) : s(std::to_string(x) + ":a-string-value-that-is-not-small") {}
+	operator uint32_t() const { return uint32_t(std::stoul(s)); }
+};
+
 typedef std::vector<std::pair<uint32_t, uint32_t>> KVs;
 
 // ---- uniform adapters over HashSet / HashMap ----
@@ -318,6 +332,25 @@ template<class AD> struct Runner
 					emit(std::to_string(got));
 					oracle(got == exp, "removeif");
 				}
+				else if (tok == "L")
+				{	// explicit iterator loop with Remove(iter) returning the next iterator
+					is >> a >> b;
+					size_t cnt = 0; std::string seen;
+					auto it = c.GetBegin();
+					size_t guard = c.GetCount() + 8;
+					while (it != c.GetEnd() && guard-- > 0)
+					{
+						uint32_t k, v; AD::get(*it, k, v);
+						if (!seen.empty()) seen += ";";
+						seen += std::to_string(k);
+						if (k % uint32_t(a) == uint32_t(b)) { it = c.Remove(it); ++cnt; }
+						else ++it;
+					}
+					size_t exp = 0;
+					for (auto ti = tw.begin(); ti != tw.end(); ) { if (ti->first % uint32_t(a) == uint32_t(b)) { ti = tw.erase(ti); ++exp; } else ++ti; }
+					emit(std::to_string(cnt) + "[" + seen + "]");
+					oracle(cnt == exp && c.GetCount() == tw.size(), "iterloop");
+				}
 				else if (tok == "E")
 				{
 					is >> a; typename AD::C::Key e(uint32_t(a), 0);
@@ -454,5 +487,7 @@ static int c01_main(const Reg* regs, size_t nregs, void (*leaf)(const std::vecto
 
 #define C01_SET(NAME, HB, SZ, AL, CAT, FAST, PART) \
 	{ NAME, &Runner<SetAd<Elem<SZ, AL, CAT>, VTraits<Elem<SZ, AL, CAT>, HB, FAST, PART>>>::run }
+#define C01_MAPV(NAME, HB, SZ, AL, CAT, FAST, PART, V) \
+	{ NAME, &Runner<MapAd<Elem<SZ, AL, CAT>, VTraits<Elem<SZ, AL, CAT>, HB, FAST, PART>, V>>::run }
 #define C01_MAP(NAME, HB, SZ, AL, CAT, FAST, PART) \
 	{ NAME, &Runner<MapAd<Elem<SZ, AL, CAT>, VTraits<Elem<SZ, AL, CAT>, HB, FAST, PART>>>::run }
